@@ -306,6 +306,10 @@ class LFDomain:
                 x, y = y, x
             if type(y) is int:
                 return self.out(path, self.and_const(path, x, y, w, s))
+            xlo, xhi = self.rng(path, LF.of(x))
+            ylo, yhi = self.rng(path, LF.of(y))
+            if xlo >= 0 and ylo >= 0:
+                return self.out(path, self.bitop_atom(path, "and", x, y, 0, min(xhi, yhi)))
             raise Unsupported("& of two symbolic values")
         if op == "|":
             return self.out(path, self.or_(path, x, y, w))
@@ -313,6 +317,11 @@ class LFDomain:
             if type(y) is int:
                 return self.out(path, self.and_const(path, x, ((1 << w) - 1) & ~y, w, s))
             raise Unsupported("&^ symbolic")
+        if op == "^":
+            xlo, xhi = self.rng(path, LF.of(x))
+            ylo, yhi = self.rng(path, LF.of(y))
+            if xlo >= 0 and ylo >= 0:
+                return self.out(path, self.bitop_atom(path, "xor", x, y, 0, min(xhi + yhi, (1 << w) - 1)))
         raise Unsupported("LF binop %s" % op)
 
     def and_const(self, path, x, c, w, s):
@@ -373,7 +382,22 @@ class LFDomain:
                 ulo, uhi = self.rng(path, u)
                 if ulo >= 0 and uhi < (1 << w):
                     return u + v.c - self.and_const(path, u, v.c, w, False)
+        # general case: a fresh atom z = x|y relaxed to  max(x,y) <= z <= x+y  (sound for non-negative operands)
+        xlo, xhi = self.rng(path, x)
+        ylo, yhi = self.rng(path, y)
+        if xlo >= 0 and ylo >= 0:
+            return self.bitop_atom(path, "or", x, y, max(xlo, ylo), min(xhi + yhi, (1 << w) - 1))
         raise Unsupported("| with overlapping operands")
+
+    def bitop_atom(self, path, kind, x, y, lo, hi):
+        memo = path.dstate.setdefault("lf_memo", {}) if (path is not None and not self.share_memo) else self.global_memo
+        key = ("bitop", kind, frozenset([self.expand(x).key(), self.expand(y).key()]))
+        if key in memo:
+            return memo[key]
+        a = self.new_atom("bit", lo, hi, bk=kind, x=LF.of(x), y=LF.of(y))
+        r = LF({a: 1})
+        memo[key] = r
+        return r
 
     def unop(self, path, u, x, ty):
         w, s = ty.int_info()
@@ -576,6 +600,11 @@ class LFDomain:
             elif d["kind"] == "mon":
                 work.append(d["a"])
                 work.append(d["b"])
+            elif d["kind"] == "bit":
+                for b in self.expand(d["x"]).t:
+                    work.append(b)
+                for b in self.expand(d["y"]).t:
+                    work.append(b)
             elif d["kind"] in ("r", "e"):
                 for b in self.expand(LF({a: 1})).t:
                     work.append(b)
@@ -627,6 +656,15 @@ class LFDomain:
                     A, Bv, M = zv(xa), zv(xb), zv(a)
                     s.add(M >= la * Bv + lb * A - la * lb, M >= ha * Bv + hb * A - ha * hb,
                           M <= ha * Bv + lb * A - ha * lb, M <= la * Bv + hb * A - la * hb)
+            if d["kind"] == "bit":
+                zx, zy = self.z3form(self.expand(d["x"]), zv), self.z3form(self.expand(d["y"]), zv)
+                Z = zv(a)
+                if d["bk"] == "or":
+                    s.add(Z >= zx, Z >= zy, Z <= zx + zy)
+                elif d["bk"] == "and":
+                    s.add(Z <= zx, Z <= zy, Z >= 0, Z >= zx + zy - ((1 << 64) - 1))
+                else:
+                    s.add(Z <= zx + zy, Z >= zx - zy, Z >= zy - zx)
             if d["kind"] == "q":
                 # 0 <= form - m*q <= m-1
                 rem = self.expand(d["form"]) - LF({a: d["m"]})
